@@ -150,6 +150,9 @@ def reject_cases(doc):
     for bad in ["/etc/passwd", "../outside/canary.jst", "./x.jst", "a/../../outside/canary.jst", "a\\\\x.jst",
                 "sub/../x.jst", "..", "a/./x.jst", "a/.."]:
         res.append(("badname:" + bad, doc + [inc(bad)], {"x.jst": t, "a/x.jst": t}, ["a", "sub"], []))
+    # the same kinds of names written in double quotes (the files exist relative to the including file)
+    for bad in ["/x.jst", "/a/x.jst", "../outside/canary.jst", "a/../x.jst", "./x.jst", "a\\\\x.jst"]:
+        res.append(("badname:quoted:" + bad, doc + [inc('"%s"' % bad)], {"x.jst": t, "a/x.jst": t}, ["a", "sub"], []))
     return res
 
 
